@@ -321,6 +321,56 @@ def check_marker(run, db):
     return n
 
 
+def check_reseat(run, db, rule='R-UNWIND.reseat'):
+    """memory_stack's cursor (stack_) and the arena's current block belong together - block_end() is read from the arena, the top from
+    stack_: on every way out of a member function, exceptional ones included, on which the arena gained or dropped a block, stack_ has
+    been re-seated after the last such change.  Reports of a caller's error (debug_check_* handlers) are not counted as exits."""
+    n = 0
+    by_cls = {}
+    for f in db.find(cls_t='memory_stack'):
+        by_cls.setdefault(f.cls, []).append(f)
+    for cls, fns in sorted(by_cls.items()):
+        for g in fns:
+            if g.pattern or g.rec.get('constm') or g.kind in ('dtor', 'move-ctor', 'move-assign') or g.short in ('shrink_to_fit',):
+                continue
+            if not any(t.get('short') in ('allocate_block', 'deallocate_block') and sym.canon(t.get('recv') or {}) == 'this.arena_' for e, t in flow.call_events(g)):
+                continue
+            n += 1
+            inst = '%s [%s]' % (g.display, db.config)
+            try:
+                SG = fwd.summarize(g, db=db, exceptional=True, roles={}, no_forward=True)
+            except sym.PathLimit as ex:
+                run.broke(str(ex))
+                continue
+            stale = set()
+            for sg in SG:
+                if sg.end not in ('return', 'propagate'):
+                    continue
+                tt = sg.throws[2] if sg.throws is not None and isinstance(sg.throws[2], dict) else None
+                if tt is not None and str(tt.get('short', '')).startswith('debug_check'):
+                    continue
+                thrower = tt.get('id') if tt is not None else None
+                last = -1
+                lim = sg.throw_at_call if sg.throw_at_call is not None else len(sg.calls)
+                for k, c in enumerate(sg.calls[:lim]):
+                    if c[1].get('k') == 'call' and c[1].get('short') in ('allocate_block', 'deallocate_block') and c[0].startswith('this.arena_.') and c[1].get('id') != thrower:
+                        last = k
+                if last < 0:
+                    continue
+                reseated = any(w[0].startswith('this.stack_') and w[4] > last for w in sg.writes) or \
+                    any(k > last and c[1].get('short') == 'operator=' and c[0].startswith('this.stack_.') for k, c in enumerate(sg.calls[:lim])) or \
+                    (g.kind == 'ctor' and any(w[0].startswith('this.stack_') for w in sg.writes))
+                if not reseated:
+                    how = ('`%s` throws' % tstr(tt)[:60]) if tt is not None else 'the function returns'
+                    stale.add('the arena gains or drops a block but stack_ still points into the old one when %s: top and block end then belong to different blocks' % how)
+            site = {'function': 'memory_stack::' + (g.short if g.kind == 'method' else g.kind), 'role': 'cursor follows the arena on every exit'}
+            if stale:
+                run.violation(rule, inst, g.loc, '; '.join(sorted(stale)[:2]), site=site)
+            else:
+                run.ok(rule, inst, g.loc, 'stack_ re-seated after every change of the arena, before anything else can throw')
+    return n
+
+
 def check_raii(run, db):
     n = 0
     by_cls = {}
@@ -364,6 +414,7 @@ def run(run):
     run.rule('R-UNWIND.cache', 'the stack uses a caching arena', floor=4)
     run.rule('R-MARKER', 'markers are totally ordered lexicographically on (index, top)', floor=6)
     run.rule('R-RAII', 'memory_stack_raii_unwind unwinds iff armed', floor=3)
+    run.rule('R-UNWIND.reseat', 'the stack cursor follows the arena on every way out of allocate / unwind, exceptional ones included', floor=4)
     run.explanation = ('Replay equality of addresses and preservation of older allocations follow dynamically from these clauses plus C01/C05; '
                        'they are not proved here.')
     for cfg in common.configs(run):
@@ -372,5 +423,6 @@ def run(run):
             run.broke('memory_stack top/unwind not found [%s]' % cfg)
         if check_marker(run, db) < 6:
             run.broke('stack_marker comparison operators not all instantiated [%s]' % cfg)
+        check_reseat(run, db)
         if check_raii(run, db) < 3:
             run.broke('memory_stack_raii_unwind members not found [%s]' % cfg)
